@@ -143,7 +143,7 @@ type holder struct {
 	lines  chan string
 	stderr *tail
 	pid    int
-	// status: idle (alive, not holding), stepping (inside an open, paused before a lock-file operation),
+	// status: idle (alive, never opened), closed (alive, closed its cache), stepping (inside an open, paused before a lock-file operation),
 	// blocked (inside an open, past the lock file, waiting for the index lock of another process),
 	// open (open returned success), refused (stepping open returned an error; step mode only), dead
 	status string
@@ -501,12 +501,15 @@ func (x *execution) storageDirs() string {
 	var s []string
 	for _, e := range es {
 		if e.Name() != "lock" {
-			s = append(s, e.Name())
+			// temporary lock files carry the writer's pid in their name
+			s = append(s, lockTmpName.ReplaceAllString(e.Name(), "lock.<pid>"))
 		}
 	}
 	sort.Strings(s)
 	return "[" + strings.Join(s, ",") + "]"
 }
+
+var lockTmpName = regexp.MustCompile(`^lock\.[0-9]+$`)
 
 func cap1(n int) string {
 	if n > 0 {
@@ -584,13 +587,13 @@ func (x *execution) enabled() []string {
 				out = append(out, "step:"+n, "kill:"+n)
 			case "open":
 				out = append(out, "close:"+n, "kill:"+n)
-			case "refused":
+			case "refused", "closed":
 				out = append(out, "kill:"+n)
 			}
 			continue
 		}
 		switch h.status {
-		case "idle":
+		case "idle", "closed":
 			out = append(out, "open:"+n, "kill:"+n, "exit:"+n)
 		case "open":
 			out = append(out, "close:"+n, "kill:"+n, "exit:"+n)
@@ -912,7 +915,7 @@ func (x *execution) evClose(event string, h *holder) {
 		x.died(event, h)
 		return
 	}
-	h.status = "idle"
+	h.status = "closed"
 	delete(x.holding, h.name)
 	if !m.OK {
 		// not a clean close: the statement says nothing about what follows, the model stops here
@@ -997,7 +1000,7 @@ func (x *execution) evCLI(event, name string) {
 	refusedByLock := code != 0 && lockWord.MatchString(stderr)
 	outcome := fmt.Sprintf("exit=%d", code)
 	if code != 0 {
-		outcome += " " + firstLine(x.pidsText(stderr))
+		outcome += " " + firstLine(x.scrub(stderr))
 	}
 	lc := x.lockClass()
 	outcome += " lock-after=" + lockKind(lc)
